@@ -77,13 +77,13 @@ func c03(c *Ctx) {
 		for _, b := range fc.Blocks {
 			for _, in := range b.Instrs {
 				bo, ok := in.(*ssa.BinOp)
-				if !ok || bo.Op != token.EQL || !types.Identical(bo.X.Type(), sevT) {
+				if !ok || !isEqOrNeq(bo) || !types.Identical(bo.X.Type(), sevT) {
 					continue
 				}
 				if v, ok := cfgx.ConstInt(bo.Y); ok && hasSuffixCall(bo.X, ".GetSeverity") {
 					seen[v] = true
 					if want[v] == "Severity_SEVERITY_FATAL" {
-						t, _ := cfgx.CondEdges(bo)
+						t, _ := eqEdges(bo)
 						fatalTrue = append(fatalTrue, t...)
 					}
 				}
